@@ -39,7 +39,7 @@ pub fn values(f: Family, k: Kind, refs: &Refs, level: u8) -> (Vec<Vec<u8>>, Vec<
 pub fn run(ctx: &Ctx) -> Report {
 	let refs = Refs::new(&ctx.root);
 	let mut total = Report::new();
-	total.rule = "per type (20): valid values = accepting traces of the class-alphabet m=0 W-method suite + the spelling domain of C07; per value every route out (Display, Debug, as_str, as_bytes, AsRef, to_owned, Clone, into_bytes, From, serde_json string/value, serialise->deserialise, text after ==/cmp/hash) and comparison with plain strings against every spelling; routes in: every trace of the suite (valid and invalid) through every construction route, compared with `validate`; non-trivial = distinct (type, text)".into();
+	total.rule = "per type (20): valid values = accepting traces of the class-alphabet m=0 W-method suite + the spelling domain of C07; per value every route out (Display, Debug, as_str, as_bytes, AsRef, to_owned, Clone, into_bytes, From, serde_json string/value, serialise->deserialise, text after ==/cmp/hash) and comparison with plain strings against every spelling; routes in: every trace of the suite (valid and invalid) through every construction route, compared with `validate`; plus every conversion route between the eight reference / non-reference types on every valid IRI reference of RAW(n); non-trivial = distinct (type, text)".into();
 	let level = ctx.pick(0u8, 1u8);
 	for (f, k) in validated_types() {
 		let (valid, all) = values(f, k, refs, level);
@@ -81,6 +81,33 @@ pub fn run(ctx: &Ctx) -> Report {
 			break;
 		}
 	}
+	// routes in BETWEEN the reference and non-reference types of both families (TryFrom / From /
+	// as_* / into_* / try_into_*): they build a value without running its parser, so what they
+	// accept is compared with the target type's reference DFA, and the text must be kept
+	{
+		use crate::model::{domains, ref_valid, syntax, FamRefs};
+		let fr_uri = FamRefs::new(refs, Family::Uri);
+		let alpha = domains::raw_alphabet(Family::Iri, 0);
+		let d = refs.dfa(Family::Iri, Kind::RiRef);
+		let n = ctx.pick(5usize, 6usize);
+		let r = run_shards(ctx, domains::raw_shard_count(alpha.len()), |si| {
+			let mut r = Report::new();
+			let mut vs = Vec::new();
+			domains::for_each_raw(&alpha, n, si, |t| {
+				if !ref_valid(&d, Family::Iri, Kind::RiRef, t) {
+					return;
+				}
+				r.states += 1;
+				r.evaluations += super::c13::conv_case_for("C14", t, fr_uri.valid(Kind::Ri, t), fr_uri.valid(Kind::RiRef, t), syntax::split(t).scheme.is_some(), &mut vs);
+				for v in vs.drain(..) {
+					r.violate(v);
+				}
+			});
+			r
+		});
+		total.count("cross_type_route_inputs", r.states);
+		total.merge(r);
+	}
 	total.distinct_nontrivial = total.states;
 	total.transitions = total.evaluations;
 	total.traces = total.states;
@@ -90,6 +117,14 @@ pub fn run(ctx: &Ctx) -> Report {
 
 pub fn replay(ctx: &Ctx, check: &str, input: &Value) -> Vec<Violation> {
 	let refs = Refs::new(&ctx.root);
+	if check == "conversion" {
+		let mut out = Vec::new();
+		if let Some(t) = crate::engine::json_bytes(&input["text"]) {
+			let fr_uri = crate::model::FamRefs::new(refs, Family::Uri);
+			super::c13::conv_case_for("C14", &t, fr_uri.valid(Kind::Ri, &t), fr_uri.valid(Kind::RiRef, &t), crate::model::syntax::split(&t).scheme.is_some(), &mut out);
+		}
+		return out;
+	}
 	let k = match input["kind"].as_str().and_then(Kind::parse) {
 		Some(k) => k,
 		None => return vec![],
